@@ -532,4 +532,4 @@ SELFTEST = [
 ]
 
 LEVEL_TEXT += ' Also (R5): on the request path no buffer is pre-sized from a length the client merely declares (size_hint / Content-Length).'
-LEVEL_TEXT += " Also (R7 = C10.R9): an unreadable Content-Type value is refused, not defaulted."
+LEVEL_TEXT += " Also (R7 = C10.R9): an unreadable Content-Type value is refused, not defaulted. Also (R1): every pause on the error path of tcp.accept() is bounded by a constant; (R8 = C03.R1): a request path whose escapes are not UTF-8 becomes the 400 of the strict decode."
